@@ -304,3 +304,136 @@ def append_loops_as_comprehensions(funcnode):
         return funcnode
     ast.fix_missing_locations(new)
     return new
+
+
+def split_table_loops(funcnode):
+    """A copy of the function in which a loop over a written-out table of cases, possibly joined with a comprehension that makes
+    rows of the same shape,
+
+        for a, b, flag in [(x, y, False) for x in S] + [(C, D, True)]:
+            body
+
+    is written as what it abbreviates: `for x in S: body[a := x, b := y, flag := False]` followed by `body[a := C, b := D, flag := True]`;
+    conditional expressions and `if` statements whose test has become a constant are folded.  Only loops whose body neither assigns
+    the loop variables nor contains break / continue / else.  Returns funcnode itself when there is nothing to rewrite."""
+    from .flow import LocalFlow
+    flow = LocalFlow(funcnode)
+    new = copy.deepcopy(funcnode)
+    count = [0]
+
+    class Sub(ast.NodeTransformer):
+        def __init__(self, mapping):
+            self.m = mapping
+
+        def visit_Name(self, node):
+            if node.id in self.m and isinstance(node.ctx, ast.Load):
+                return ast.copy_location(copy.deepcopy(self.m[node.id]), node)
+            return node
+
+    class Fold(ast.NodeTransformer):
+        def visit_IfExp(self, node):
+            self.generic_visit(node)
+            if isinstance(node.test, ast.Constant) and isinstance(node.test.value, bool):
+                return node.body if node.test.value else node.orelse
+            return node
+
+        def visit_If(self, node):
+            self.generic_visit(node)
+            if isinstance(node.test, ast.Constant) and isinstance(node.test.value, bool):
+                return (node.body if node.test.value else node.orelse) or [ast.copy_location(ast.Pass(), node)]
+            return node
+
+    def parts(e):
+        if isinstance(e, ast.BinOp) and isinstance(e.op, ast.Add):
+            l, r = parts(e.left), parts(e.right)
+            return None if l is None or r is None else l + r
+        if isinstance(e, (ast.List, ast.Tuple)) and e.elts and not any(isinstance(x, ast.Starred) for x in e.elts):
+            return [('rows', e.elts)]
+        if isinstance(e, ast.ListComp) and len(e.generators) == 1 and not e.generators[0].is_async:
+            return [('comp', e)]
+        return None
+
+    def block(stmts):
+        out = []
+        for s in stmts:
+            if isinstance(s, (ast.FunctionDef, ast.AsyncFunctionDef, ast.ClassDef)):
+                out.append(s)
+                continue
+            for fld in ('body', 'orelse', 'finalbody'):
+                sub = getattr(s, fld, None)
+                if isinstance(sub, list) and sub and isinstance(sub[0], ast.stmt):
+                    setattr(s, fld, block(sub))
+            for h in getattr(s, 'handlers', []) or []:
+                h.body = block(h.body)
+            if isinstance(s, ast.For) and not s.orelse:
+                tnames = [s.target.id] if isinstance(s.target, ast.Name) else (
+                    [e.id for e in s.target.elts] if isinstance(s.target, (ast.Tuple, ast.List)) and all(isinstance(e, ast.Name) for e in s.target.elts) else None)
+                ps = parts(flow.inline(s.iter)) if tnames else None
+                inner = [n for st in s.body for n in ast.walk(st)]
+                ok = ps is not None and any(k == 'comp' for k, _v in ps) and not any(isinstance(n, (ast.Break, ast.Continue)) for n in inner) and \
+                    not any(isinstance(n, ast.Name) and n.id in (tnames or []) and isinstance(n.ctx, (ast.Store, ast.Del)) for n in inner)
+
+                def row_values(e):
+                    if len(tnames) == 1 and isinstance(s.target, ast.Name):
+                        return [e]
+                    if isinstance(e, (ast.Tuple, ast.List)) and len(e.elts) == len(tnames) and not any(isinstance(x, ast.Starred) for x in e.elts):
+                        return list(e.elts)
+                    return None
+                if ok:
+                    pieces = []
+                    for kind, v in ps:
+                        if kind == 'rows':
+                            for e in v:
+                                vals = row_values(e)
+                                if vals is None:
+                                    ok = False
+                                    break
+                                pieces.append(('once', dict(zip(tnames, vals)), None))
+                        else:
+                            vals = row_values(v.elt)
+                            if vals is None:
+                                ok = False
+                            else:
+                                pieces.append(('loop', dict(zip(tnames, vals)), v.generators[0]))
+                        if not ok:
+                            break
+                if ok:
+                    # locals assigned in the body get a name of their own in each copy (z3_u of the assumptions is not z3_u of the conclusion)
+                    assigned = {n.id for n in inner if isinstance(n, ast.Name) and isinstance(n.ctx, ast.Store)} | \
+                        {h.name for n in inner if isinstance(n, ast.Try) for h in n.handlers if h.name}
+                    used_after = set()
+
+                    class Ren(ast.NodeTransformer):
+                        def __init__(self, k):
+                            self.k = k
+
+                        def visit_Name(self, node):
+                            if node.id in assigned:
+                                return ast.copy_location(ast.Name(id='%s__case%d' % (node.id, self.k), ctx=node.ctx), node)
+                            return node
+
+                        def visit_ExceptHandler(self, node):
+                            self.generic_visit(node)
+                            if node.name in assigned:
+                                node.name = '%s__case%d' % (node.name, self.k)
+                            return node
+                    for k_, (kind, mapping, gen) in enumerate(pieces):
+                        body = []
+                        for st in s.body:
+                            st2 = Fold().visit(Sub(mapping).visit(Ren(k_).visit(copy.deepcopy(st))))
+                            body.extend(st2 if isinstance(st2, list) else [st2])
+                        if kind == 'once':
+                            out.extend(body)
+                        else:
+                            for c in reversed(gen.ifs):
+                                body = [ast.copy_location(ast.If(test=copy.deepcopy(c), body=body, orelse=[]), s)]
+                            out.append(ast.copy_location(ast.For(target=copy.deepcopy(gen.target), iter=copy.deepcopy(gen.iter), body=body, orelse=[]), s))
+                    count[0] += 1
+                    continue
+            out.append(s)
+        return out
+    new.body = block(new.body)
+    if not count[0]:
+        return funcnode
+    ast.fix_missing_locations(new)
+    return new
